@@ -70,6 +70,7 @@ CONSTANTS
     MaxDeliver,   \* deliveries of one chain event to one node (> 1: duplicates, late ones are stale)
     MaxBad,       \* number of faulty nodes (crash, message loss, deviant GJKR view)
     MaxStops,     \* number of node stops (crashes and graceful restarts)
+    MaxViewMis,   \* bound on the members a deviant GJKR view marks as misbehaved (N: no bound)
     Prompt,       \* TRUE: chain time does not advance while a prompt member has a step to take
     \* --- knobs of the negative configurations (all TRUE = the code as it is) ---
     Agreement,    \* Gjkr: honest members that finish agree on key and misbehaved set (C01/C02)
@@ -184,7 +185,7 @@ pvars == <<hon, mb, sg>>
 vars  == <<cvars, mvars, nvars, pvars>>
 
 NoDkg == [st |-> "none", key |-> "", mis |-> {}, by |-> 0]
-NoReq == [st |-> "none", rd |-> 0, e |-> 0, prev |-> "", by |-> 0]
+NoReq == [st |-> "none", rd |-> 0, e |-> 0, prev |-> "", by |-> 0, quorum |-> FALSE]
 NoMb  == [st |-> "idle", key |-> "", mis |-> {}, sent |-> FALSE, sup |-> {}, nsub |-> 0, obs |-> FALSE,
           ops |-> {}, fate |-> "", late |-> FALSE]
 NoSg  == [st |-> "idle", kix |-> 0, sent |-> FALSE, got |-> {}, nsub |-> 0, obs |-> FALSE, starts |-> 0]
@@ -298,8 +299,10 @@ JoinDkg(n, r) ==
 (* dkg.go ExecuteDKG                                                       *)
 
 Fail == [ok |-> FALSE, key |-> "", mis |-> {}]
+\* (a member that was cut off may end GJKR with more than N-H members marked:
+\* gjkr.Execute does not fail then, resolveGroupOperators does later)
 Views(i) == {[ok |-> TRUE, key |-> v, mis |-> M] :
-               v \in Variants, M \in {X \in SUBSET (Members \ {i}) : N - Cardinality(X) >= H}}
+               v \in Variants, M \in {X \in SUBSET (Members \ {i}) : Cardinality(X) <= MaxViewMis}}
 
 \* what gjkr.Execute may hand to member i
 Outcomes(r, i) ==
@@ -309,6 +312,8 @@ Outcomes(r, i) ==
 
 GjkrDone(r, i, o) ==
     /\ up[Seat[i]] /\ mb[r][i].st = "gjkr" /\ o \in Outcomes(r, i)
+    \* lockstep: the outcome of the prompt members presupposes that all of them take part
+    /\ (Prompt /\ PromptMember(i) /\ ~mb[r][i].late) => ~DkgJoinBusy(r)
     /\ mb' = [mb EXCEPT ![r][i] = IF o.ok THEN [@ EXCEPT !.st = "signed", !.key = o.key, !.mis = o.mis]
                                         ELSE [@ EXCEPT !.st = "out"]]
     /\ UNCHANGED <<cvars, mvars, nvars, hon, sg>>
@@ -322,6 +327,15 @@ SendSig(r, i, lost) ==
     /\ sigs' = IF lost THEN sigs
                ELSE [sigs EXCEPT ![r] = @ \cup {[from |-> i, key |-> mb[r][i].key, mis |-> mb[r][i].mis]}]
     /\ UNCHANGED <<cvars, shares, evq, pendS, pendE, nvars, hon, sg>>
+
+\* a faulty member signs a second, different result (different receivers may
+\* see different ones; a receiver that sees both drops the sender, C13)
+Equivocate(r, i, o) ==
+    /\ up[Seat[i]] /\ Seat[i] \in bad /\ mb[r][i].sent /\ mb[r][i].st \in {"signed", "ready", "pubfail"}
+    /\ o \in Views(i) /\ <<o.key, o.mis>> # <<mb[r][i].key, mb[r][i].mis>>
+    /\ Cardinality({s \in sigs[r] : s.from = i}) < 2
+    /\ sigs' = [sigs EXCEPT ![r] = @ \cup {[from |-> i, key |-> o.key, mis |-> o.mis]}]
+    /\ UNCHANGED <<cvars, shares, evq, pendS, pendE, nvars, pvars>>
 
 \* Support (C13): the messages of D as resultSigningState.Receive /
 \* VerifyDKGResultSignatures see them
@@ -417,6 +431,8 @@ Register(r, i) ==
 (* The chain: relay requests                                               *)
 
 ChainKey(r) == KeyIx(r, dkg[r].key)
+\* at least H correct members hold (in storage) a membership of group k
+QuorumFor(k) == Cardinality({i \in Members : Seat[i] \notin bad /\ i \in cur[Seat[i]][k]}) >= H
 ReqKey(q)   == ChainKey(req[q].rd)
 
 \* the chain selects a registered group that is not stale; after a timeout
@@ -424,9 +440,16 @@ ReqKey(q)   == ChainKey(req[q].rd)
 RequestRelay(q, r, e, p) ==
     /\ actQ = 0 /\ req[q].st = "none"
     /\ \A x \in Reqs : x < q => req[x].st \in {"done", "timedout"}
-    /\ dkg[r].st = "accepted" /\ r \notin stale
+    /\ dkg[r].st = "accepted"
+    \* the chain never selects a stale group (the harness does, to see that nobody signs)
+    /\ Prompt => r \notin stale
+    \* assumption of the prompt model: the chain does not pick a group whose
+    \* members may still be on their way to the registry (a request that comes
+    \* earlier finds nodes that do not know the group yet: they only forward)
+    /\ Prompt => actR # r
     /\ e \in 0..(N - 1)
-    /\ req' = [req EXCEPT ![q] = [st |-> "open", rd |-> r, e |-> e, prev |-> p, by |-> 0]]
+    /\ req' = [req EXCEPT ![q] = [st |-> "open", rd |-> r, e |-> e, prev |-> p, by |-> 0,
+                                  quorum |-> QuorumFor(KeyIx(r, dkg[r].key))]]
     /\ actQ' = q /\ rslot' = 0
     /\ UNCHANGED <<dkg, actR, dslot, stale, mvars, nvars, pvars>>
 
@@ -662,6 +685,8 @@ DoDeliverDkg    == \E n \in Nodes, r \in Rounds : DeliverDkg(n, r)
 DoJoinDkg       == \E n \in Nodes, r \in Rounds : JoinDkg(n, r)
 GjkrDoneAny(r, i) == \E o \in Outcomes(r, i) : GjkrDone(r, i, o)
 DoGjkrDone      == \E r \in Rounds, i \in Members : GjkrDoneAny(r, i)
+EquivocateAny(r, i) == \E o \in Views(i) : Equivocate(r, i, o)
+DoEquivocate    == \E r \in Rounds, i \in Members : EquivocateAny(r, i)
 DoSendSig       == \E r \in Rounds, i \in Members, lost \in BOOLEAN : SendSig(r, i, lost)
 VerifyAny(r, i) == \E D \in SUBSET {s \in sigs[r] : s.from # i} : Verify(r, i, D)
 DoVerify        == \E r \in Rounds, i \in Members : VerifyAny(r, i)
@@ -710,7 +735,7 @@ FirstDelivery(n) ==
 
 Next ==
     \/ DoStartDkg \/ AdvanceDkg \/ CloseDkg \/ DoDeliverDkg \/ DoJoinDkg
-    \/ DoGjkrDone \/ DoSendSig \/ DoVerify \/ DoSubmitDkg \/ DoObserveDkg \/ DoResolve
+    \/ DoGjkrDone \/ DoSendSig \/ DoEquivocate \/ DoVerify \/ DoSubmitDkg \/ DoObserveDkg \/ DoResolve
     \/ DoFateEvent \/ DoFateTimeout \/ DoRegister
     \/ DoRequestRelay \/ AdvanceRelay \/ CloseRelay \/ DoConfirmRelay \/ DoDedupRelay
     \/ DoSendShare \/ DoAcceptShare \/ DoCompleteAlone \/ DoSubmitEntry \/ DoObserveEntry
@@ -815,33 +840,36 @@ RelayInOrder ==
 SigningStartsBounded == \A q \in Reqs, i \in Members : sg[q][i].starts <= 2
 
 \* (S10) a request never times out while enough correct members could sign
-EnoughHonest(q) ==
-    Cardinality({i \in HonestMembers : Held(Seat[i], ReqKey(q), i) /\ i \in cur[Seat[i]][ReqKey(q)]}) >= H
+EnoughHonest(q) == req[q].quorum
 NoTimeoutWithQuorum ==
     Prompt => \A q \in Reqs : req[q].st = "timedout" => ~EnoughHonest(q)
 
 \* action properties -------------------------------------------------------
 
 \* (S11) no submission after observing someone else's (C47 3b) -- DKG result and relay entry
-NoSubmitAfterObserve ==
-    [][/\ \A r \in Rounds, i \in Members : mb[r][i].obs => mb'[r][i].nsub = mb[r][i].nsub
-       /\ \A q \in Reqs, i \in Members : sg[q][i].obs => sg'[q][i].nsub = sg[q][i].nsub]_vars
+NoSubmitAfterObserveStep ==
+    /\ \A r \in Rounds, i \in Members : mb[r][i].obs => mb'[r][i].nsub = mb[r][i].nsub
+    /\ \A q \in Reqs, i \in Members : sg[q][i].obs => sg'[q][i].nsub = sg[q][i].nsub
+NoSubmitAfterObserve == [][NoSubmitAfterObserveStep]_vars
 
 \* (S12) nobody submits before its slot (C47 3a)
-NoSubmitBeforeSlot ==
-    [][/\ \A r \in Rounds, i \in Members : mb'[r][i].nsub > mb[r][i].nsub => dslot >= DkgSlot(i)
-       /\ \A q \in Reqs, i \in Members : sg'[q][i].nsub > sg[q][i].nsub => rslot >= RelaySlot(i, req[q].e)]_vars
+NoSubmitBeforeSlotStep ==
+    /\ \A r \in Rounds, i \in Members : mb'[r][i].nsub > mb[r][i].nsub => dslot >= DkgSlot(i)
+    /\ \A q \in Reqs, i \in Members : sg'[q][i].nsub > sg[q][i].nsub => rslot >= RelaySlot(i, req[q].e)
+NoSubmitBeforeSlot == [][NoSubmitBeforeSlotStep]_vars
 
 \* (S13) signing starts only with a membership that is in the storage at that moment
-SigningNeedsStoredMembership ==
-    [][\A q \in Reqs, i \in Members :
-          (sg[q][i].st = "idle" /\ sg'[q][i].st # "idle") => i \in cur[Seat[i]][sg'[q][i].kix]]_vars
+SigningNeedsStoredMembershipStep ==
+    \A q \in Reqs, i \in Members :
+        (sg[q][i].st = "idle" /\ sg'[q][i].st # "idle") => i \in cur[Seat[i]][sg'[q][i].kix]
+SigningNeedsStoredMembership == [][SigningNeedsStoredMembershipStep]_vars
 
 \* (S14) the map only ever shows what reached storage first (Registry!WriteAhead), nothing is lost
-StorageFirst ==
-    [][\A n \in Nodes, k \in KeyIxs :
-          /\ SeqRange(cache'[n][k]) \subseteq cur'[n][k]
-          /\ (cur[n][k] \cup arch[n][k]) \subseteq (cur'[n][k] \cup arch'[n][k])]_vars
+StorageFirstStep ==
+    \A n \in Nodes, k \in KeyIxs :
+        /\ SeqRange(cache'[n][k]) \subseteq cur'[n][k]
+        /\ (cur[n][k] \cup arch[n][k]) \subseteq (cur'[n][k] \cup arch'[n][k])
+StorageFirst == [][StorageFirstStep]_vars
 
 \* liveness under fairness ---------------------------------------------------
 
